@@ -885,17 +885,17 @@ fn run_request(
   let cr = json!({"case": case, "request": request});
   for id in spec.difference(&imp) {
     let obs = json!({"missing": id, "returned": imp, "expected": spec, "model_side_conditions": side});
-    if nqual > 0 && !hasq(id) {
-      s.fail(
-        "candidates.unscored-required-doc",
-        "a live document satisfying the query is not returned; it contains no scored term of the request (candidates are taken from scored postings only)",
-        &cr,
-        obs,
-      );
-    } else if rxmiss(id) {
+    if rxmiss(id) {
       s.fail(
         "regex.literal-prefix",
         "a live document satisfying the query is not returned; it matches a regex clause only through a term that does not start with regex_literal_prefix(pattern), which the dictionary scan skips",
+        &cr,
+        obs,
+      );
+    } else if nqual > 0 && !hasq(id) {
+      s.fail(
+        "candidates.unscored-required-doc",
+        "a live document satisfying the query is not returned; it contains no scored term of the request (candidates are taken from scored postings only)",
         &cr,
         obs,
       );
